@@ -398,6 +398,37 @@ fn case(i: u64, rng: &mut Rng, st: &mut State, full: bool) {
                     edits.push((f.off, 2, "proof-option"));
                 }
             }
+            // the claimed field: the modulus bytes replaced by those of the two other fields (and by the field's own
+            // modulus + 1 / - 1); under every acceptance policy, incl. thresholds that only the claimed (larger)
+            // field would meet, the proof must be refused
+            if let Some(f) = map.fields.iter().find(|f| f.name == "context.field_modulus") {
+                let own = stark::modulus(fd);
+                let mut claims: Vec<Vec<u8>> = Vec::new();
+                for m in [wfv::refmath::P62, wfv::refmath::P64, wfv::refmath::P128, own + 1, own - 1] {
+                    if m != own {
+                        let nb = if m > u64::MAX as u128 { 16 } else { 8 };
+                        claims.push(m.to_le_bytes()[..nb].to_vec());
+                    }
+                }
+                for claim in claims {
+                    let mut b = bytes[..f.off - 1].to_vec();
+                    b.push(claim.len() as u8);
+                    b.extend_from_slice(&claim);
+                    b.extend_from_slice(&bytes[f.off + f.len..]);
+                    let (lc, _) = stark::security_levels(fd, hs, &honest_proof);
+                    for pol in [AcceptableOptions::MinConjecturedSecurity(0), AcceptableOptions::MinConjecturedSecurity(lc + 1), AcceptableOptions::OptionSet(vec![options.clone()])] {
+                        match wfv::catch(|| Proof::from_bytes(&b)) {
+                            Ok(Ok(p2)) => match stark::verify_proof(fd, hs, &shape, &values, p2, &pol, false) {
+                                Ok(Ok(())) => st.violation("relabelled-proof-accepted:claimed-field", describe(0, 0, "field modulus edited inside the proof", format!("claimed modulus bytes {}", wfv::hex(&claim)))),
+                                Ok(Err(_)) => st.count("rejected.relabelled_claimed-field"),
+                                Err(_) => st.count("relabelled.verifier_panic(see C06)"),
+                            },
+                            _ => st.count("rejected.relabelled_claimed-field"),
+                        }
+                        checked += 1;
+                    }
+                }
+            }
             for (off, mask, what) in edits {
                 let mut b = bytes.clone();
                 b[off] ^= mask;
@@ -433,7 +464,7 @@ fn main() {
     let n = run.size(240, 12_000);
     run.par("shapes", n, |i, rng, st| case(i, rng, st, full));
     let mut require = vec![("shapes.every_cell_corrupted".to_string(), 10), ("still_valid.accepted".to_string(), 20), ("perturbed_statements".to_string(), 100), ("aux.rejected".to_string(), 50), ("aux.rejected_constraint_index_ge_main_constraints".to_string(), 10), ("swap.rejected".to_string(), 30), ("aux_assertion.rejected".to_string(), 30), ("aux_assertion.rejected_with_more_aux_than_main_assertions".to_string(), 5), ("swap.rejected_on_lagrange_kernel_air".to_string(), 5)];
-    for k in ["first-step", "last-enforced-row", "row-before-exemption-boundary", "last-step", "asserted-single", "asserted-periodic", "asserted-sequence", "interior", "perturbed_assertion_value", "perturbed_exemptions", "perturbed_rule-constant", "relabelled_trace-metadata-byte", "relabelled_proof-option"] {
+    for k in ["first-step", "last-enforced-row", "row-before-exemption-boundary", "last-step", "asserted-single", "asserted-periodic", "asserted-sequence", "interior", "perturbed_assertion_value", "perturbed_exemptions", "perturbed_rule-constant", "relabelled_trace-metadata-byte", "relabelled_proof-option", "relabelled_claimed-field"] {
         require.push((format!("rejected.{k}"), 5));
     }
     for f in [Fd::F62, Fd::F64, Fd::F128] {
